@@ -243,6 +243,24 @@ PathT: TypeAlias = list[Union[int, str, "PathToken"]]
 RE_PROPERTY = re.compile(r"[\u0080-\uFFFFa-zA-Z_][\u0080-\uFFFFa-zA-Z0-9_-]*")
 
 
+def _quote_segment(segment: str) -> str:
+    """Return a string literal for the raw text of a quoted path segment.
+
+    Escape sequences in _segment_ have not been decoded yet, apart from `\\'`.
+    """
+    buf: list[str] = []
+    index = 0
+    while index < len(segment):
+        ch = segment[index]
+        if ch == "\\":
+            buf.append(segment[index : index + 2])
+            index += 2
+            continue
+        buf.append('\\"' if ch == '"' else ch)
+        index += 1
+    return f'"{"".join(buf)}"'
+
+
 @dataclass(kw_only=True, slots=True)
 class PathToken(TokenT):
     """A token representing the path to a variable."""
@@ -262,7 +280,7 @@ class PathToken(TokenT):
                 if RE_PROPERTY.fullmatch(segment):
                     buf.append(f".{segment}")
                 else:
-                    buf.append(f"[{segment!r}]")
+                    buf.append(f"[{_quote_segment(segment)}]")
             else:
                 buf.append(f"[{segment}]")
         return "".join(buf)
